@@ -128,6 +128,8 @@ def op_run(p, cfg, op):
         return guarded(f)
     if kind == 'scan':
         return guarded(lambda: [canon_any(m) for m in p.scan('9 ' + T[arg] + ' 9 ' + T['ok2'])])
+    if kind == 'scan-short':    # thread scenarios: fewer tokens, so that bound 2 completes below the schedule cap
+        return guarded(lambda: [canon_any(m) for m in p.scan('9 if a 9 b')])
     if kind == 'scan1':
         def f():
             it = iter(p.scan('9 ' + T[arg] + ' 9 ' + T['ok2']))
@@ -199,8 +201,8 @@ SCENARIOS = {
     'cb-parse-parse': ('lalr-basic-cb', [('parse', 'ok'), ('parse', 'ok2')]),
     'ctx-cb-parse-parse': ('lalr-contextual-cb', [('parse', 'ok'), ('parse', 'ok2')]),
     'ctx-ok-bad': ('lalr-contextual', [('parse', 'ok'), ('parse', 'bad-lex')]),
-    'ctx-scan-scan': ('lalr-contextual', [('scan', 'ok'), ('scan', 'ok')]),
-    'ctx-scan-parse': ('lalr-contextual', [('scan', 'ok'), ('parse', 'ok2')]),
+    'ctx-scan-scan': ('lalr-contextual', [('scan-short', 'ok'), ('scan-short', 'ok')]),
+    'ctx-scan-parse': ('lalr-contextual', [('scan-short', 'ok'), ('parse', 'ok2')]),
     'basic-lex-parse': ('lalr-basic', [('lex', 'ok'), ('parse', 'ok2')]),
     'transformer-parse-parse': ('lalr-transformer', [('parse', 'ok'), ('parse', 'ok2')]),
     'earley-basic-parse-parse': ('earley-basic', [('parse', 'ok2'), ('parse', 'ok')]),
@@ -209,7 +211,7 @@ SCENARIOS = {
 }
 SCENARIOS3 = {
     'cb-3-parses': ('lalr-basic-cb', [('parse', 'ok'), ('parse', 'ok2'), ('parse', 'ok')]),
-    'ctx-3-mixed': ('lalr-contextual', [('parse', 'ok'), ('scan', 'ok'), ('parse', 'bad-syntax')]),
+    'ctx-3-mixed': ('lalr-contextual', [('parse', 'ok'), ('scan-short', 'ok'), ('parse', 'bad-syntax')]),
 }
 
 
